@@ -937,6 +937,11 @@ class Engine:
                 val = self.mk_enum(fr.note[1], fr.note[2], val)
             elif fr.note[0] == "not":
                 val = Bool(z3.Not(val.e))
+            elif fr.note[0] == "once_init":
+                opt = self.mk_enum("Option", "Some", val)
+                fr.note[1].val = opt
+                m.event("oncecell_init")
+                val = Ref(opt.fields[("Some", 0)])
         if not m.frames:
             m.outcome = ("return", val)
             raise _Stop()
